@@ -77,6 +77,11 @@ BLOB_IDS = {'src_b': 1, 'src_nb': 2, 'src_flip': 3, 'src_trunc': 4, 'garbage': 5
 WRONG_HASH = 'ab' * 32      # id 99 in the model: the digest of no blob
 
 
+def furl(path):
+    import urllib.request
+    return 'file://' + urllib.request.pathname2url(path)
+
+
 def sha(b):
     return hashlib.sha256(b).hexdigest()
 
@@ -324,7 +329,8 @@ def do_scenario(sc, base):
     """sc: dict, see harness/check_C10.py gen_wrap_scenario.  Returns dict(out=canonical string, oracle=[...])."""
     from mesonbuild.wrap import wrap as W
     from mesonbuild.wrap import WrapMode
-    root = tempfile.mkdtemp(prefix='w-', dir=base)
+    # a project path with a blank, a non-ASCII letter and a percent sign when the scenario asks for it
+    root = tempfile.mkdtemp(prefix='w %41 \u00fc-' if sc.get('hostile_path') else 'w-', dir=base)
     sub = os.path.join(root, 'subprojects')
     pf = os.path.join(sub, 'packagefiles')
     cache = os.path.join(sub, 'packagecache')
@@ -337,9 +343,9 @@ def do_scenario(sc, base):
     rec = {'s': hx(sc['src_hash']), 'p': None}
     urls = {'s': sc['src_url'], 'p': False}
     if sc['src_url']:
-        lines.append('source_url = file://' + os.path.join(srv, 'src-primary.tar.gz'))
+        lines.append('source_url = ' + furl(os.path.join(srv, 'src-primary.tar.gz')))
     if sc['src_fb']:
-        lines.append('source_fallback_url = file://' + os.path.join(srv, 'src-fallback.tar.gz'))
+        lines.append('source_fallback_url = ' + furl(os.path.join(srv, 'src-fallback.tar.gz')))
     if rec['s']:
         lines.append('source_hash = ' + rec['s'])
     if lead:
@@ -348,10 +354,10 @@ def do_scenario(sc, base):
     if pk in ('F', 'B'):
         lines.append('patch_filename = foo-patch.tar.gz')
         if sc['patch']['url']:
-            lines.append('patch_url = file://' + os.path.join(srv, 'patch-primary.tar.gz'))
+            lines.append('patch_url = ' + furl(os.path.join(srv, 'patch-primary.tar.gz')))
             urls['p'] = True
         if sc['patch']['fb']:
-            lines.append('patch_fallback_url = file://' + os.path.join(srv, 'patch-fallback.tar.gz'))
+            lines.append('patch_fallback_url = ' + furl(os.path.join(srv, 'patch-fallback.tar.gz')))
         rec['p'] = hx(sc['patch']['hash'])
         if rec['p']:
             lines.append('patch_hash = ' + rec['p'])
@@ -487,6 +493,17 @@ def lookup_oracle(cell):
             break
         if lk.get('expect') is None:
             break
+    # a name that an earlier successful multi-name lookup covered answers with the same dependency
+    for j, lk in enumerate(lookups):
+        i = lk.get('alias_of')
+        if i is None or i >= len(obs) or not obs[i][0]:
+            continue
+        if j >= len(obs):
+            if j == len(obs) and status == 'ERR':
+                fails.append({'kind': 'name-of-found-lookup-not-aliased', 'first': i, 'later': j, 'got_first': obs[i], 'got_later': 'ERR'})
+            continue
+        if obs[j] != obs[i]:
+            fails.append({'kind': 'name-of-found-lookup-not-aliased', 'first': i, 'later': j, 'got_first': obs[i], 'got_later': obs[j]})
     # repeated lookups with the same arguments return the same dependency
     seen = {}
     for i, lk in enumerate(lookups):
